@@ -1,4 +1,4 @@
-import RulioProofs.SysNonint
+import RulioProofs.SysCover
 
 open AM
 
@@ -204,3 +204,23 @@ example (k : Kind) : Anc (exDiamond k) 3 "d" "a" := by
   have h1 : Par (exDiamond k) 3 "d" "b" := ⟨["b", "c"], by cases k <;> decide +kernel, by simp⟩
   have h2 : Par (exDiamond k) 3 "b" "a" := ⟨["a"], by cases k <;> decide +kernel, by simp⟩
   exact .step h1 (.step h2 (.refl _))
+
+
+/-- **visits_exactly_ancestors (quiet case)** — when neither `fn` nor the parent reads change the locations of `sys`
+at time `now` (nothing to purge: `QuietWalk`), a successful walk from `n` returns a value from `n` and from *every*
+transitive declared parent of `n`; together with `no_downward_delivery` the set of locations consulted is exactly
+`Anc sys now n`. Without quietness the purge of an expired fact may cascade-delete a `!parents` fact between two visits
+of the same location (a diamond's top is re-read on every path), so only the inclusion `⊆` holds in general. -/
+theorem visits_exactly_ancestors_quiet {α} {now : Int} {fn : String → LM α} {sys : Sys}
+    (hq : QuietWalk sys now fn) (wf : SysWF sys) (hfnk : ∀ n, (fn n).KeepsName) (hfnm : ∀ n, (fn n).ParentMono now)
+    (n : String) (fuel : Nat) {ls : List (String × α)} (h : (doAncestors fuel sys n now (tagged fn) []).2 = .ok ls)
+    (x : String) : x ∈ ls.map (·.1) ↔ Anc sys now n x := by
+  constructor
+  · intro hx
+    obtain ⟨p, hp, rfl⟩ := List.mem_map.1 hx
+    exact no_downward_delivery wf hfnk hfnm n fuel h p hp
+  · exact (doAncestors_cover hq wf fuel n [] [] ls h).2 x
+
+/-- non-vacuity: the diamond system is quiet for a state-preserving `fn` (no `!parents` fact is expired) -/
+example (k : Kind) : QuietWalk (exDiamond k) 3 (fun _ => (LM.pure () : LM Unit)) :=
+  ⟨fun _ _ _ => rfl, quietReadB_sound (by cases k <;> decide +kernel)⟩
